@@ -78,6 +78,7 @@ pub fn hl_sets(b: &Bounds) -> Vec<HlSet> {
                 3 => ("F3", fam3(l)),
                 4 => ("F4", fam4(l)),
                 5 => ("F5", fam5(l)),
+                7 => ("F7", fam7(l)),
                 _ => ("F6", fam6(l)),
             };
             // larger alphabets get one character less so that every family costs about the same
